@@ -710,4 +710,96 @@ def WF (proj : Project) (rank : List Nat) : Bool :=
   namesOk proj
 
 
+/-! ## re-exports: the shape for which soundness with MOVED objects is stated (PdProps/C04.lean, item 3)
+
+C07's property speaks of this shape: every object has at most one re-exporter, the re-exporter imports it
+directly from the module that defines it, the re-exported objects are top-level classes / functions of
+plain modules, and class bodies do not import. -/
+
+/-- the module-level re-exports the project asks for: `(definer module, name, re-exporting module, new name)`:
+a `from … import n [as a]` statement of a module whose `__all__` lists the bound name -/
+def reexportReqs (proj : Project) : List (Nat × Name × Nat × Name) :=
+  (List.range proj.length).flatMap fun x =>
+    match lastAll (bodyOf proj x) with
+    | none => []
+    | some exports =>
+      (bodyOf proj x).filterMap fun st =>
+        match st with
+        | .importFrom lvl M n a =>
+          if exports.contains (a.getD n) then
+            match target proj x lvl M with
+            | some d => some (d, n, x, a.getD n)
+            | none => none
+          else none
+        | _ => none
+
+def isAllStmt : Stmt → Bool | .allAssign _ => true | _ => false
+def isStarStmt : Stmt → Bool | .importStar _ _ => true | _ => false
+def isImportStmt : Stmt → Bool
+  | .importMod _ _ => true | .importFrom _ _ _ _ => true | .importStar _ _ => true | _ => false
+
+/-- `n` is a top-level class or function of module `d` -/
+def definesTop (proj : Project) (d : Nat) (n : Name) : Bool :=
+  (bodyOf proj d).any fun st => match st with
+    | .classDef n' _ _ => n' == n
+    | .funcDef n' => n' == n
+    | _ => false
+
+def reexportShape (proj : Project) : Bool :=
+  -- one `__all__` per module, and a module that has one does not star-import
+  ((List.range proj.length).all fun m =>
+    let b := bodyOf proj m
+    (b.filter isAllStmt).length ≤ 1 && ((b.filter isAllStmt).isEmpty || !(b.any isStarStmt))) &&
+  -- the re-exporter imports the object directly from the plain module that defines it (a class / function),
+  -- and that module does not itself list it in an `__all__`
+  ((reexportReqs proj).all fun r =>
+    r.1 != r.2.2.1 && !isPkg proj r.1 && definesTop proj r.1 r.2.1 &&
+    !((lastAll (bodyOf proj r.1)).getD []).contains r.2.1) &&
+  -- at most one re-exporter per object
+  nodupB ((reexportReqs proj).map fun r => (r.1, r.2.1)) &&
+  -- class bodies do not import
+  (allProj proj fun _ cp st => cp.isEmpty || !isImportStmt st)
+
+/-- `WF` with the restriction `noReexport` replaced by `reexportShape` -/
+def WFr (proj : Project) (rank : List Nat) : Bool :=
+  modulesOk proj && pathsUnique proj && importsOk proj rank && boundOnce proj rank &&
+  namesUnique proj && basesNonempty proj && noStarInClass proj && rootsReserved proj &&
+  namesOk proj && reexportShape proj
+
+/-- where the documentation of the object defined at `p` ends up: below its re-exporter, if it has one -/
+def finalLocPath (proj : Project) (p : Path) : Path :=
+  match (reexportReqs proj).find? (fun r => (pathOf proj r.1 ++ [r.2.1]).isPrefixOf p) with
+  | some r => pathOf proj r.2.2.1 ++ [r.2.2.2] ++ p.drop ((pathOf proj r.1).length + 1)
+  | none => p
+
+/-- identity by definition site ↦ identity by final documented location -/
+def finalLoc (proj : Project) : Ident → Ident
+  | .mod p => .mod p
+  | .dfn p => .dfn (finalLocPath proj p)
+
+mutual
+def stmtIdents : Stmt → List Name
+  | .importMod t a => t ++ a.toList
+  | .importFrom _ M n a => M ++ [n] ++ a.toList
+  | .importStar _ M => M
+  | .classDef n bs body => n :: (bs.flatten ++ stmtsIdents body)
+  | .funcDef n => [n]
+  | .assign n _ => [n]
+  | .allAssign l => l
+def stmtsIdents : List Stmt → List Name
+  | [] => []
+  | st :: rest => stmtIdents st ++ stmtsIdents rest
+end
+
+/-- every identifier that occurs in the project -/
+def identifiers (proj : Project) : List Name :=
+  (proj.flatMap fun md => md.path ++ stmtsIdents md.body).eraseDups
+
+/-- the dotted names of length ≤ depth + 1 over `ids` whose every proper prefix satisfies `ok`, that satisfy `ok` -/
+def extendQ (ok : Path → Bool) (ids : List Name) : Nat → List Path → List Path
+  | 0, cur => cur.filter ok
+  | d+1, cur =>
+    let good := cur.filter ok
+    good ++ extendQ ok ids d (good.flatMap fun q => ids.map fun x => q ++ [x])
+
 end Imports
